@@ -17,7 +17,7 @@
      skip_flush_count to the source's values.
    The named constants that occur in the expressions (CRC_SIZE, LEADER_SIZE, HEADER_SIZE, MAX_OPLOG_ENTRIES_BYTE_SIZE) are given
    the model's values; ConstTie.v proves those equal to the source's. *)
-From HC Require Import Base Codec CodecFacts Crypto Storage Bitfield Oplog Merkle Core OplogFacts FnDesc SrcFns.
+From HC Require Import Base Codec CodecFacts Crypto Storage Bitfield Oplog Merkle Core OplogFacts FnDesc SrcFns FnTieLib.
 From Coq Require Import FMapPositive.
 From Coq Require Import ZifyN ZifyNat ZifyBool Lia.
 Ltac Zify.zify_post_hook ::= Z.div_mod_to_equations.
@@ -39,93 +39,6 @@ Ltac Zify.zify_post_hook ::= Z.div_mod_to_equations.
 Local Open Scope string_scope.
 Local Open Scope list_scope.
 Local Open Scope N_scope.
-
-(* ---------- evaluation of a concrete expression in an association-list environment ---------- *)
-
-Ltac ev := cbn [reval rbin env_of String.eqb Ascii.eqb Bool.eqb fst snd].
-Ltac ev_in H := cbn [reval rbin env_of String.eqb Ascii.eqb Bool.eqb fst snd] in H.
-
-Lemma truthy_b2n b : truthy (N.b2n b) = b.
-Proof. now destruct b. Qed.
-
-Lemma b2n_truthy_bool n : n < 2 -> N.b2n (truthy n) = n.
-Proof. intros H. unfold truthy. destruct (N.eqb_spec n 0) as [->|Hn]; cbn [negb N.b2n]; lia. Qed.
-
-(* opens a tie: [None] is closed at once, [Some e] leaves the statement about e *)
-Ltac open_tie := unfold tied_fn; cbv delta [src_leader_word src_leader_guard src_leader_min_len src_leader_len
-  src_leader_header_bit src_leader_partial_bit src_leader_no_frame src_leader_zone_lo src_leader_zone_hi src_current_bit
-  src_next_slot_cond src_next_slot_then_slot src_next_slot_then_bit src_next_slot_else_slot src_next_slot_else_bit
-  src_contig_end src_contig_drop_cond src_contig_drop_value src_contig_set_cond src_contig_set_from
-  src_flush_cond src_flush_skip_then src_flush_skip_else src_flush_result_then src_flush_result_else]; cbv beta iota.
-
-(* decides a goal made of comparisons of linear terms under b2n / truthy / && / || / if *)
-Ltac cmp_cases :=
-  rewrite ?truthy_b2n;
-  repeat match goal with
-         | |- context [?a =? ?b] => destruct (N.eqb_spec a b)
-         | |- context [?a <? ?b] => destruct (N.ltb_spec a b)
-         | |- context [?a <=? ?b] => destruct (N.leb_spec a b)
-         end;
-  cbn [N.b2n negb andb orb truthy]; rewrite ?truthy_b2n; cbn [N.b2n negb andb orb]; try reflexivity; try lia.
-
-(* ---------- bit arithmetic ---------- *)
-
-Lemma testbit_small k i : k < 2 ^ i -> N.testbit k i = false.
-Proof. intros H. rewrite N.testbit_eqb, N.div_small by exact H. reflexivity. Qed.
-
-(* disjoint or = + : the low [s] bits of a << s are free *)
-Lemma lor_shiftl_low a s k : k < 2 ^ s -> N.lor (N.shiftl a s) k = a * 2 ^ s + k.
-Proof.
-  intros Hk. rewrite <- N.shiftl_mul_pow2.
-  assert (Hd : N.land (N.shiftl a s) k = 0).
-  { apply N.bits_inj. intros i. rewrite N.land_spec, N.bits_0.
-    destruct (N.ltb_spec i s) as [Hi|Hi].
-    - rewrite N.shiftl_spec_low by exact Hi. reflexivity.
-    - rewrite (testbit_small k i), andb_false_r; [reflexivity|].
-      eapply N.lt_le_trans; [exact Hk|]. apply N.pow_le_mono_r; lia. }
-  rewrite <- (N.lxor_lor _ _ Hd). symmetry. apply N.add_nocarry_lxor. exact Hd.
-Qed.
-
-Lemma land_pow2 a n : N.land a (2 ^ n) = if N.testbit a n then 2 ^ n else 0.
-Proof.
-  apply N.bits_inj. intros m. rewrite N.land_spec, N.pow2_bits_eqb.
-  destruct (N.eqb_spec n m) as [->|Hnm].
-  - destruct (N.testbit a m); [now rewrite N.pow2_bits_eqb, N.eqb_refl | now rewrite N.bits_0].
-  - rewrite andb_false_r. destruct (N.testbit a n); [|now rewrite N.bits_0].
-    rewrite N.pow2_bits_eqb. symmetry. now apply N.eqb_neq.
-Qed.
-
-Lemma land_1 a : N.land a 1 = N.b2n (N.odd a).
-Proof. change 1 with (2 ^ 0) at 1. rewrite land_pow2, N.bit0_odd. now destruct (N.odd a). Qed.
-
-Lemma land_2 a : N.land a 2 = 2 * N.b2n (N.odd (a / 2)).
-Proof.
-  change 2 with (2 ^ 1) at 1. rewrite land_pow2, N.testbit_odd, N.shiftr_div_pow2.
-  change (2 ^ 1) with 2. now destruct (N.odd (a / 2)).
-Qed.
-
-Lemma shiftr_2 a : N.shiftr a 2 = a / 4.
-Proof. rewrite N.shiftr_div_pow2. reflexivity. Qed.
-
-Lemma shiftl_2 a : N.shiftl a 2 = a * 4.
-Proof. rewrite N.shiftl_mul_pow2. reflexivity. Qed.
-
-(* the two top bits of a u32: MASK = 3u32.rotate_right(2) = 3 << 30 *)
-Lemma land_top2 n : n < 4294967296 -> (N.land 3221225472 n =? 0) = (n <? 1073741824).
-Proof.
-  intros Hn. change 3221225472 with (N.shiftl 3 30).
-  destruct (N.ltb_spec n 1073741824) as [Hlt|Hge].
-  - apply N.eqb_eq. apply N.bits_inj. intros i. rewrite N.land_spec, N.bits_0.
-    destruct (N.ltb_spec i 30) as [Hi|Hi].
-    + rewrite N.shiftl_spec_low by exact Hi. reflexivity.
-    + rewrite (testbit_small n i), andb_false_r; [reflexivity|].
-      eapply N.lt_le_trans; [exact Hlt|]. change 1073741824 with (2 ^ 30). apply N.pow_le_mono_r; lia.
-  - apply N.eqb_neq. intros H0.
-    assert (Hs : N.shiftr (N.land (N.shiftl 3 30) n) 30 = 0) by (rewrite H0; reflexivity).
-    rewrite N.shiftr_land, N.shiftr_shiftl_l, N.sub_diag, N.shiftl_0_r in Hs by lia.
-    change 3 with (N.ones 2) in Hs. rewrite N.land_comm, N.land_ones, N.shiftr_div_pow2 in Hs.
-    change (2 ^ 30) with 1073741824 in Hs. change (2 ^ 2) with 4 in Hs. lia.
-Qed.
 
 (* ================================================================================================================= *)
 (* 1. build_len_and_info_header                                                                                       *)
@@ -350,47 +263,6 @@ Theorem next_slot_is_the_sources : next_slot_tie.
 Proof. unfold next_slot_tie, next_slot_spec. open_tie. first [exact I | intros [|] [|]; vm_compute; reflexivity]. Qed.
 
 (* ================================================================================================================= *)
-(* 4. update_contiguous_length                                                                                        *)
-(* ================================================================================================================= *)
-
-Definition env_contig (c start length : N) : string -> N :=
-  env_of [("c", c); ("bitfield_update.start", start); ("bitfield_update.length", length)].
-
-Definition contig_end_tie (e : rexpr) : Prop :=
-  forall c start length, reval (env_contig c start length) e = start + length.
-
-(* drop: the contiguous length falls back to the source's value exactly when the source's condition holds *)
-Definition contig_drop_spec (dc dv : rexpr) : Prop :=
-  forall c b start length, let env := env_contig c start length in
-    update_contig c b (mkBfUpdate true start length) = if truthy (reval env dc) then reval env dv else c.
-Definition contig_drop_tie : Prop :=
-  tied_fn src_contig_drop_cond (fun dc => tied_fn src_contig_drop_value (fun dv => contig_drop_spec dc dv)).
-
-(* set: the scan over the following set bits starts at the source's value exactly when the source's condition holds *)
-Definition contig_set_spec (sc sf : rexpr) : Prop :=
-  forall c b start length, let env := env_contig c start length in
-    update_contig c b (mkBfUpdate false start length) =
-    if truthy (reval env sc) then bf_skip_set (S (PositiveMap.cardinal (bf_bits b))) b (reval env sf) else c.
-Definition contig_set_tie : Prop :=
-  tied_fn src_contig_set_cond (fun sc => tied_fn src_contig_set_from (fun sf => contig_set_spec sc sf)).
-
-Lemma tie_contig_end : tied_fn src_contig_end contig_end_tie.
-Proof. open_tie. first [exact I | intros c s l; unfold env_contig; ev; lia]. Qed.
-
-Theorem contig_drop_is_the_sources : contig_drop_tie.
-Proof.
-  unfold contig_drop_tie, contig_drop_spec. open_tie.
-  first [exact I | intros c b s l; cbv zeta; unfold update_contig, env_contig; cbn [bu_drop bu_start bu_length]; ev; cmp_cases].
-Qed.
-
-Theorem contig_set_is_the_sources : contig_set_tie.
-Proof.
-  unfold contig_set_tie, contig_set_spec. open_tie.
-  first [exact I | intros c b s l; cbv zeta; unfold update_contig, env_contig; cbn [bu_drop bu_start bu_length]; ev;
-                   generalize (S (PositiveMap.cardinal (bf_bits b))); intros fuel; cmp_cases].
-Qed.
-
-(* ================================================================================================================= *)
 (* 5. should_flush_bitfield_and_tree_and_oplog                                                                        *)
 (* ================================================================================================================= *)
 
@@ -514,25 +386,6 @@ Proof. intros H. specialize (H true false). vm_compute in H. discriminate. Qed.
 Example current_bit_eq_refuted : ~ current_bit_tie (RBin OEq (RVar "self.header_bits[0]") (RVar "self.header_bits[1]")).
 Proof. intros H. specialize (H true false). vm_compute in H. discriminate. Qed.
 
-(* today's drop rule, on a concrete case: clearing 2..4 of a core contiguous to 10 leaves 2 *)
-Example contig_drop_example :
-  contig_drop_spec (RBin OGt ex_c ex_start) ex_start /\ update_contig 10 bf_empty (mkBfUpdate true 2 2) = 2.
-Proof.
-  split; [|vm_compute; reflexivity].
-  intros c b s l; cbv zeta; unfold update_contig, env_contig, ex_c, ex_start; cbn [bu_drop bu_start bu_length]; ev; cmp_cases.
-Qed.
-
-(* the earlier defect (since repaired): `c <= end && c > start` in the DROP branch keeps a stale contiguous length when the
-   cleared range ends below it: contiguous 10, clear 2..4 must give 2, the wrong rule leaves 10 *)
-Example contig_drop_old_defect_refuted :
-  ~ contig_drop_spec (RBin OLAnd (RBin OLe ex_c ex_end) (RBin OGt ex_c ex_start)) ex_start.
-Proof. intros H. specialize (H 10 bf_empty 2 2). vm_compute in H. discriminate. Qed.
-
-(* `c < end` in the SET branch would not extend a contiguous length that touches the end of the range *)
-Example contig_set_lt_refuted :
-  ~ contig_set_spec (RBin OLAnd (RBin OLt ex_c ex_end) (RBin OGe ex_c ex_start)) ex_end.
-Proof. intros H. specialize (H 4 (bf_set_range bf_empty 4 1 true) 2 2). vm_compute in H. discriminate. Qed.
-
 (* ================================================================================================================= *)
 (* all of them                                                                                                        *)
 (* ================================================================================================================= *)
@@ -587,28 +440,5 @@ Proof.
   exact flush_decision_is_the_sources.
 Qed.
 
-(* update_contiguous_length of src/core.rs (pinned in props/C08.v) *)
-Theorem source_contig_functions_are_the_models :
-  tied_fn src_contig_end contig_end_tie /\ contig_drop_tie /\ contig_set_tie.
-Proof.
-  split; [exact tie_contig_end|]. split; [exact contig_drop_is_the_sources | exact contig_set_is_the_sources].
-Qed.
-
-Theorem source_functions_are_the_models :
-  (* src/oplog/mod.rs *)
-  tied_fn src_leader_word leader_word_tie /\ tied_fn src_leader_guard leader_guard_tie /\
-  tied_fn src_leader_min_len leader_min_len_tie /\ tied_fn src_leader_len leader_len_tie /\
-  tied_fn src_leader_header_bit leader_header_bit_tie /\ tied_fn src_leader_partial_bit leader_partial_bit_tie /\
-  tied_fn src_leader_no_frame leader_no_frame_tie /\
-  tied_fn src_leader_zone_lo leader_zone_lo_tie /\ tied_fn src_leader_zone_hi leader_zone_hi_tie /\
-  validate_leader_tie /\
-  tied_fn src_current_bit current_bit_tie /\ next_slot_tie /\
-  (* src/core.rs *)
-  tied_fn src_contig_end contig_end_tie /\ contig_drop_tie /\ contig_set_tie /\ flush_tie.
-Proof.
-  pose proof source_oplog_functions_are_the_models as Ho. pose proof source_contig_functions_are_the_models as Hc. tauto.
-Qed.
 Print Assumptions fn_desc_meaning.
 Print Assumptions source_oplog_functions_are_the_models.
-Print Assumptions source_contig_functions_are_the_models.
-Print Assumptions source_functions_are_the_models.
